@@ -543,13 +543,27 @@ package scanner
 // names still on the stack stay registered: needs that stacked names are pairwise distinct (delete removes one name)
 //@   assume namesOK(s)
 
+// the tracer handed to a directive describes exactly the include stack at that moment (C07)
+//@ pred tracerMatches(t directiveIncludeTracer, ii []stackItem) := len(t.stack) == len(ii)
+//@     && forallp(j, at(t.stack, t.stack.off + j), imp(0 <= j && j < len(ii),
+//@         at(t.stack, t.stack.off + j).file == at(ii, ii.off + j).scanner.file && at(t.stack, t.stack.off + j).at == at(ii, ii.off + j).at))
+//@ func newDirectiveIncludeTracer(ii)
+//@   property C07
+//@   requires 0 <= ii.off && forallp(j, at(ii, j), imp(ii.off <= j && j < ii.off + len(ii), at(ii, j).scanner != nil))
+//@   modifies nothing
+//@   ensures[C07,@tracer-matches-stack] tracerMatches(result, ii)
 //@ func newDirectiveIncludeTracer loop 1
 //@   invariant d.stack.arr == 0 || fresh(d.stack.arr)
+//@   invariant 0 <= d.stack.off && len(d.stack) == rangeindex + 1 && len(d.stack) <= len(ii)
+//@   invariant forallp(j, at(d.stack, d.stack.off + j), imp(0 <= j && j < len(d.stack),
+//@       at(d.stack, d.stack.off + j).file == at(ii, ii.off + j).scanner.file && at(d.stack, d.stack.off + j).at == at(ii, ii.off + j).at))
 //@ func (*Stack).ToDirectiveIncludeTracer(s)
 //@   property C07,C01
 //@   requires stackInv(s)
 //@   modifies s.includeTracers, s.includeTracers[:]
 //@   ensures result != nil && tracersOK(s)
+//@   ensures[C07,@tracer-matches-stack] imp(len(s.stack) > 0, typeis(result, directiveIncludeTracer)
+//@       && tracerMatches(unbox(result, directiveIncludeTracer), s.stack))
 
 //@ func (*Stack).Empty(s)
 //@   property C01
